@@ -52,15 +52,26 @@ func Scope(
 	case schema.TypeIDScope:
 		return dataType.(schema.Scope), nil
 	case schema.TypeIDObject:
-		return schema.NewScopeSchema(
-			dataType.(*schema.ObjectSchema),
-		), nil
+		return newScope(dataType.(*schema.ObjectSchema))
 	default:
 		return nil, fmt.Errorf(
 			"invalid type for output root object: %s (must be an object)",
 			dataType.TypeID(),
 		)
 	}
+}
+
+// newScope wraps the object in a scope. Linking the scope applies the namespace to everything below the object,
+// which panics on an ill-formed schema (for example a one-of whose discriminator is also a field of one of its
+// options): such a schema is reported as an error.
+func newScope(root *schema.ObjectSchema) (result schema.Scope, err error) {
+	defer func() {
+		if r := recover(); r != nil {
+			result = nil
+			err = fmt.Errorf("invalid inferred schema (%v)", r)
+		}
+	}()
+	return schema.NewScopeSchema(root), nil
 }
 
 // Type attempts to infer the data model from the data, possibly evaluating expressions.
